@@ -36,6 +36,7 @@ type Engine struct {
 
 	timeoutMs int
 	verbose   bool
+	findings  []Finding
 }
 
 const pkgPath = "github.com/jwhited/corebgp"
